@@ -37,12 +37,33 @@ PART = "tf_pwa/particle.py"
 
 
 class TokP(str):
-    """particle token: compares / hashes / prints as its full name "name[:id]"; .name is the part before the id"""
+    """particle token: prints / hashes as its full name "name[:id]", .name is the part before the id, and - like
+    BaseParticle, whose own comparison methods are decided by the clause G-order - it is ordered by (name, id)"""
 
     @property
     def tok_attrs(self):
-        base = str(self).split(":")[0]
-        return {"name": base, "_name": base, "disable": True}
+        base, pid = self._key()
+        return {"name": base, "_name": base, "_id": pid, "disable": True}
+
+    def _key(self):
+        parts = str(self).split(":")
+        if len(parts) > 1 and parts[-1].lstrip("-").isdigit():
+            return ":".join(parts[:-1]), int(parts[-1])
+        return str(self), 0
+
+    def __lt__(self, other):
+        return self._key() < other._key() if isinstance(other, TokP) else str.__lt__(self, other)
+
+    def __gt__(self, other):
+        return self._key() > other._key() if isinstance(other, TokP) else str.__gt__(self, other)
+
+    def __le__(self, other):
+        return self._key() <= other._key() if isinstance(other, TokP) else str.__le__(self, other)
+
+    def __ge__(self, other):
+        return self._key() >= other._key() if isinstance(other, TokP) else str.__ge__(self, other)
+
+    __hash__ = str.__hash__
 
 
 class TokD(tuple):
@@ -160,6 +181,32 @@ def decays_of(chain):
 
 
 # ------------------------------------------------------------------ clauses
+def check_order(repo, chk):
+    """BaseParticle's own comparison methods, on which every sorted() of particles relies"""
+    chk.rule("G-order", "BaseParticle.__lt__ / __eq__ / __hash__ interpreted on particles (name, id): ordering, equality and hash follow the pair (name, id) - so that names that extend one another (pi, pi+, pi:1) sort name first, id second, and a grouping's sorted list of particles is also sorted by name")
+    pc = repo.cls(PART + "::BaseParticle")
+    from ..sym import SelfObj as _SO
+    samples = [("pi", 0), ("pi", 1), ("pi+", 0), ("K", 0), ("K", 2), ("D0", 0), ("D", 1)]
+    objs = [_SO(pc, {"_name": n_, "_id": i_, "name": n_}) for n_, i_ in samples]
+    tr = Translator(repo, hooks={"builtin.isinstance": lambda tr_, a_, k_, n_: isinstance(a_[0], _SO)}, max_depth=2)
+    bad = None
+    for m_, ref in (("__lt__", lambda a, b: a < b), ("__eq__", lambda a, b: a == b)):
+        fn = pc.lookup(m_)
+        if fn is None:
+            raise AnalysisError("anchor vanished: BaseParticle.%s" % m_)
+        for i, a in enumerate(objs):
+            for j, b in enumerate(objs):
+                try:
+                    got = tr.call_fn(fn, [b], {}, self_obj=a)
+                except Unmodelled as ex:
+                    raise AnalysisError("BaseParticle.%s cannot be interpreted: %s" % (m_, ex))
+                if bool(got) != ref(samples[i], samples[j]) and bad is None:
+                    bad = (fn, "%s%r.%s(%s%r) is %s, the order of (name, id) pairs gives %s" % ("", samples[i], m_, "", samples[j], got, ref(samples[i], samples[j])))
+    chk.oblige("G-order", "BaseParticle.__lt__ / __eq__ on %d x %d (name, id) pairs" % (len(objs), len(objs)), bad is None)
+    if bad:
+        chk.violation("G-order", bad[0].key, "pair-order", bad[1] + ": sorted particle lists are then not sorted by name, and the name-based topology identity (identical particles) compares lists in different orders", file=PART, line=bad[0].lineno)
+
+
 def check_graph(repo, chk):
     chk.rule("G-step", "_Chain_Graph.add_node(e, d) replaces the edge e = (a, b) by (a, v), (v, b), (v, d) with a fresh inner node v and touches no other edge (|edges| + 2)")
     chk.rule("G-copy", "_Chain_Graph.copy() is independent of the original: add_node on the copy leaves the original unchanged")
@@ -327,7 +374,8 @@ def same_world(worlds):
     for k, ds in enumerate(chains):
         inner = sorted({d[0] for d in ds} - {"A"})
         out.append(_rename(ds, dict(ident, **{p: "R%d_%d" % (k, i) for i, p in enumerate(inner)})))
-        out.append(_rename(list(reversed(ds)), dict(ident, **{p: "Z%d_%d" % (k, len(inner) - i) for i, p in enumerate(inner)})))
+        z = _rename(list(reversed(ds)), dict(ident, **{p: "Z%d_%d" % (k, len(inner) - i) for i, p in enumerate(inner)}))
+        out.append([TokD(d[0], list(reversed(d._outs))) for d in z])  # ... and every decay written with its daughters in the other order
         # the names of the first spelling, rotated among the inner particles: same topology, but a name now
         # stands for another grouping than in the first spelling
         out.append(_rename(ds, dict(ident, **{p: "R%d_%d" % (k, (i + 1) % len(inner)) for i, p in enumerate(inner)})))
@@ -451,6 +499,7 @@ def run(repo, chk, tier="quick"):
     from ..cacheown import check_memo_soundness
 
     check_memo_soundness(repo, chk)
+    check_order(repo, chk)
     check_graph(repo, chk)
     worlds = check_enum(repo, chk, tier)
     if 4 not in worlds:
